@@ -21,7 +21,7 @@ def pools(tier):
     # the tree of the pool's syntax-node values: nodes 3 and 4 are two different `call` nodes starting at the same position
     calls_src = 1 + next(i for i, nm in enumerate(A.source_names()) if "s13_calls" in nm)
     full = [V.vnull(), V.vbool(True), V.vbool(False), V.vint(0), V.vint(1), V.vint(65536), V.vint(U32MAX), V.vint(U32MAX - 1),
-            V.vstr(""), V.vstr("a"), V.vstr("{}"), V.vstr("{"), V.vstr("x{}y}}"), V.vstr("{{{}}}"), V.vstr("a.b"), V.vstr("é中"), V.vstr("b"), V.vstr("éé{}中{{x}}{}"),
+            V.vstr(""), V.vstr("a"), V.vstr("{}"), V.vstr("{"), V.vstr("x{}y}}"), V.vstr("{{{}}}"), V.vstr("a.b"), V.vstr("é中"), V.vstr("b"), V.vstr("éé{}中{{x}}{}"), V.vstr("{{}}"), V.vstr("{} = {{}}"),
             V.vlist(), V.vlist(V.vint(1), V.vstr("a")), V.vlist(V.vstr("a"), V.vstr("b")), V.vlist(V.vlist(V.vint(1)), V.vlist()),
             V.vlist(V.vstr(""), V.vstr("usr"), V.vstr("")), V.vlist(V.vint(1), V.vint(1), V.vint(2)), V.vlist(V.vlist(V.vint(4), V.vint(4)), V.vlist(V.vint(4))), V.vlist(V.vstr(""), V.vstr("")), V.vstr("/"), V.vstr("^$"),
             {"t": "set", "e": [V.vint(1), V.vint(2)]}, {"t": "set", "e": []}, {"t": "set", "e": [V.vstr("a"), V.vstr("b")]},
